@@ -91,6 +91,33 @@ type S struct {
 	cur     *Thread
 	hung    bool
 	Timeout time.Duration
+	// expired[tid]: the deadline of every timed wait of thread tid counts as reached
+	// (virtual time of the sched/time shim; set by the controller between steps)
+	expired map[int]bool
+}
+
+// SetExpired makes the deadline of the timed waits of thread tid count as reached from
+// now on (controller only, between steps).  It reports whether a scheduler is active.
+func SetExpired(tid int) bool {
+	s := active.Load()
+	if s == nil {
+		return false
+	}
+	if s.expired == nil {
+		s.expired = map[int]bool{}
+	}
+	s.expired[tid] = true
+	return true
+}
+
+// Controlled reports whether the caller is a logical thread running under the scheduler,
+// and whether its deadline counts as reached.
+func Controlled() (under, expired bool) {
+	s := active.Load()
+	if s == nil || s.cur == nil {
+		return false, false
+	}
+	return true, s.expired[s.cur.ID]
 }
 
 var (
